@@ -45,6 +45,23 @@ Definition deal {A} (nt : nat) (assign : nat -> nat) (l : list A) : list (list A
       (seq 0 nt).
 
 (* ------------------------------------------------------------------------------------------- *)
+(* 1b. Inside one component: the inner loop (`smp inner_loop`, OpenMP `parallel for reduction`)   *)
+(* ------------------------------------------------------------------------------------------- *)
+(* A component's value is an accumulation over its atoms (rmsd: sum of squared deviations; gyration,
+   coordNum, eigenvector projections, ... likewise).  The serial loop folds the per-atom terms in index
+   order.  Under an inner-loop parallelisation the number of threads [nt] and the partition of the index
+   range ([assign k] = thread of the k-th term: static, dynamic, guided schedules are all instances) are
+   explicit parameters: every thread folds its own terms starting from the neutral element, then the partial
+   results are folded.  The carrier is any type with an operation and a neutral element. *)
+Section InnerLoop.
+  Context {M : Type} (op : M -> M -> M) (e : M).
+  Definition msum (l : list M) : M := fold_left op l e.
+  Definition reduce_chunks (chunks : list (list M)) : M := msum (map msum chunks).
+  Definition inner_loop_value (nt : nat) (assign : nat -> nat) (terms : list M) : M :=
+    reduce_chunks (deal nt assign terms).
+End InnerLoop.
+
+(* ------------------------------------------------------------------------------------------- *)
 (* 2. Which components a call of calc_cvcs evaluates                                            *)
 (* ------------------------------------------------------------------------------------------- *)
 Fixpoint count_true (flags : list bool) : nat :=
